@@ -866,7 +866,7 @@ async fn unlock_part(cx: &mut Cx<'_>, folders: &[Folder], owner: &Identity) {
             cx.rep.case(h.finish(), !own);
             row.push(unlocked.is_ok());
             let replay = json!({
-                "vault": {"cipher": f.cipher.to_string(), "kdf": f.kdf.to_string(), "seeded": f.seeded, "salt": f.vault.salt(), "password": f.password.expose_secret()},
+                "vault": {"cipher": f.cipher.to_string(), "kdf": f.kdf.to_string(), "seeded": f.seeded, "seed": f.vault.seed().map(|s| hex::encode(s.0)), "salt": f.vault.salt(), "password": f.password.expose_secret()},
                 "tried_password": g.password.expose_secret(), "own": own,
                 "meta_nonce": f.vault.header().meta().map(|m| hex::encode(m.nonce.as_ref())),
                 "meta_ciphertext": f.vault.header().meta().map(|m| hex::encode(&m.ciphertext)),
@@ -909,27 +909,20 @@ async fn unlock_part(cx: &mut Cx<'_>, folders: &[Folder], owner: &Identity) {
                     let mut ap2 = Ap::new(ap.vault().clone());
                     let reopen = ap2.unlock(&AccessKey::Password(f.password.clone())).await.is_ok();
                     let readable_by_own = matches!(ap2.read_secret(&id).await, Ok(Some(_)));
+                    // and can the folder meta (the password check blob) be replaced?
+                    let mut ap3 = Ap::new(f.vault.clone());
+                    let _ = ap3.unlock(&key).await;
+                    let meta_replaced = ap3.set_vault_meta(&VaultMeta::default()).await.is_ok();
+                    let v = ap3.vault().clone();
+                    let own_after = Ap::new(v.clone()).unlock(&AccessKey::Password(f.password.clone())).await.is_ok();
+                    let wrong_after = Ap::new(v).unlock(&key).await.is_ok();
                     cx.rep.violation(
                         "C10:unlock:refused_unlock_leaves_wrong_key:write_accepted",
                         &format!(
-                            "AccessPoint::unlock(wrong password) returned Err but kept the key derived from the wrong password: the following create_secret succeeded instead of Error::VaultLocked; the stored secret is readable with the wrong password: {readable_by_wrong}, with the folder's own password: {readable_by_own} (own password still unlocks: {reopen})"
+                            "AccessPoint::unlock(wrong password) returned Err but kept the key derived from the wrong password (access_point.rs unlock assigns private_key before checking it and never clears it): the following create_secret succeeded instead of Error::VaultLocked; the stored secret is readable with the wrong password: {readable_by_wrong}, with the folder's own password: {readable_by_own} (own password still unlocks: {reopen}). On a second copy set_vault_meta after the refused unlock succeeded: {meta_replaced}; after that the folder unlocks with its own password: {own_after}, with the wrong password: {wrong_after}"
                         ),
                         replay.clone(),
                     );
-                    // and the folder meta (the password check blob) can be replaced
-                    let mut ap3 = Ap::new(f.vault.clone());
-                    let _ = ap3.unlock(&key).await;
-                    let meta = VaultMeta::default();
-                    if ap3.set_vault_meta(&meta).await.is_ok() {
-                        let v = ap3.vault().clone();
-                        let own_after = Ap::new(v.clone()).unlock(&AccessKey::Password(f.password.clone())).await.is_ok();
-                        let wrong_after = Ap::new(v).unlock(&key).await.is_ok();
-                        cx.rep.violation(
-                            "C10:unlock:refused_unlock_leaves_wrong_key:meta_replaced",
-                            &format!("after a refused unlock set_vault_meta succeeded with the wrong key; afterwards the folder unlocks with its own password: {own_after}, with the wrong password: {wrong_after}"),
-                            replay.clone(),
-                        );
-                    }
                 } else {
                     cx.rep.count("refused_unlock_stays_locked", 1);
                 }
